@@ -301,15 +301,15 @@ Definition norm_msgs (nonext extd : bool) (msgs : list (N * list fitem)) : list 
   map (fun m => (fst m, norm_items nonext extd (snd m))) msgs.
 
 (* which number a message is matched to its command by: the sequence number, or for UID FETCH
-   the UID, which has to come first (the client routes the message when the first literal
-   starts) *)
+   the UID, which the backend writes once, anywhere among the items *)
+Fixpoint the_uid (l : list fitem) : option N :=
+  match l with
+  | [] => None
+  | FUid u :: rest => if existsb (fun i => match i with FUid _ => true | _ => false end) rest then None else Some u
+  | _ :: rest => the_uid rest
+  end.
 Definition msg_key (uid : bool) (m : N * list fitem) : option N :=
-  if uid then
-    match snd m with
-    | FUid u :: rest => if existsb (fun i => match i with FUid _ => true | _ => false end) rest then None else Some u
-    | _ => None
-    end
-  else Some (fst m).
+  if uid then the_uid (snd m) else Some (fst m).
 
 Fixpoint nodup_n (l : list N) : bool :=
   match l with [] => true | a :: r => negb (existsb (N.eqb a) r) && nodup_n r end.
